@@ -102,6 +102,12 @@ type c6Z struct {
 	Any []any     `wire:",required=false"`
 }
 
+// c6Sealed collects implementers of a sealed interface.
+type c6Sealed struct {
+	All []scen.IS `wire:",required=false"`
+	One scen.IS   `wire:",required=false"`
+}
+
 var c6Kinds = []string{"PA", "F1", "F2", "F12", "SPA", "S1", "S2", "FnP", "Fn1", "FnA", "FnAB", "FnS", "FnB"}
 
 func c6Pred(kind string) func(t string) bool {
@@ -141,6 +147,7 @@ type c06Case struct {
 	Choices []int       `json:"choices,omitempty"`
 	Peers   []string    `json:"peer_names,omitempty"`     // family "peers": names of the c6Peer holders ("" = default name)
 	Zero    int         `json:"zero_size_mask,omitempty"` // family "zero-size": which of Z1,Z2,Z3 are registered
+	Sealed  int         `json:"sealed_mask,omitempty"`    // family "sealed": which of TS1,TS2 (implementers of a sealed interface) are registered
 }
 
 func c06Pops(variants [][]string, yield func([]scen.Inst) bool) {
@@ -194,6 +201,12 @@ func c06Gen(c *core.Ctx) func(yield func(c06Case) bool) {
 		})
 		if !ok {
 			return
+		}
+		// implementers of an interface with an unexported method
+		for m := 1; m < 4; m++ {
+			if ok = yield(c06Case{Sealed: m}); !ok {
+				return
+			}
 		}
 		// zero-size components
 		for z := 1; z < 8; z++ {
@@ -317,9 +330,23 @@ func c06Run(c *core.Ctx) {
 				zh = &c6Z{}
 				comps = append(comps, zh)
 			}
+			var sh *c6Sealed
+			var swant []string
+			if cs.Sealed != 0 {
+				if cs.Sealed&1 != 0 {
+					comps = append(comps, &scen.TS1{X: 1})
+					swant = append(swant, "TS1")
+				}
+				if cs.Sealed&2 != 0 {
+					comps = append(comps, &scen.TS2{Nm: scen.Nm{Id: "TS2"}})
+					swant = append(swant, "TS2")
+				}
+				sh = &c6Sealed{}
+				comps = append(comps, sh)
+			}
 			var call *c6All
 			var get func() any
-			if len(cs.Peers) > 0 || cs.Zero != 0 {
+			if len(cs.Peers) > 0 || cs.Zero != 0 || cs.Sealed != 0 {
 			} else if cs.Kind == "" {
 				call = &c6All{}
 				comps = append(comps, call)
@@ -348,7 +375,7 @@ func c06Run(c *core.Ctx) {
 			cc := cs
 			cc.Choices = ch.Choices()
 			key := func(kind string) string {
-				return "C06/" + kind + "/" + core.Hash(cs.Pop, cs.Kind, cs.Desc, cc.Choices)
+				return "C06/" + kind + "/" + core.Hash(cs.Pop, cs.Kind, cs.Desc, cs.Peers, cs.Zero, cs.Sealed, cc.Choices)
 			}
 			adm := func(kind string) []string {
 				pred := c6Pred(kind)
@@ -390,6 +417,18 @@ func c06Run(c *core.Ctx) {
 					return false
 				}
 				return true
+			}
+			if cs.Sealed != 0 {
+				if o.Err != nil {
+					c.Outcome("sealed/error")
+					c.Report(key("sealed-error"), "spurious-error", "all points are optional but start-up failed: "+scen.FirstLine(o.Err), cc)
+					return
+				}
+				c.Outcome(fmt.Sprintf("sealed/ok/%d", len(swant)))
+				if slice("[]IS (sealed interface)", scen.IdsOf(sh.All), swant) {
+					single("IS (sealed interface)", sh.One, swant)
+				}
+				return
 			}
 			if cs.Zero != 0 {
 				if o.Err != nil {
